@@ -194,10 +194,17 @@ pub struct Ctx {
     pub stores: Mutex<Vec<Weak<RStore>>>,
     /// callbacks read the state (C08) when set
     pub read_in_cb: bool,
+    /// progress counters a controller can wait on: (effect bodies started, reducer-0 calls ended)
+    pub c_eff: Counter,
+    pub c_red: Counter,
+    pub count_progress: bool,
 }
 
 impl Ctx {
     pub fn new(scripts: ScriptSrc, n_gates: usize, seed: u64, perturb: u8, read_in_cb: bool) -> Arc<Ctx> {
+        Ctx::new_opts(scripts, n_gates, seed, perturb, read_in_cb, false)
+    }
+    pub fn new_opts(scripts: ScriptSrc, n_gates: usize, seed: u64, perturb: u8, read_in_cb: bool, count_progress: bool) -> Arc<Ctx> {
         Arc::new(Ctx {
             log: Log::new(),
             scripts,
@@ -206,6 +213,9 @@ impl Ctx {
             perturb,
             stores: Mutex::new(Vec::new()),
             read_in_cb,
+            c_eff: Counter::new(),
+            c_red: Counter::new(),
+            count_progress,
         })
     }
     pub fn script(&self, n: u32) -> Script {
@@ -260,6 +270,9 @@ pub const PANIC_MARK: &str = "rsv-scripted-panic";
 
 fn effect_body(ctx: &Arc<Ctx>, store: u8, a: u32, ridx: u32, e: EffSpec) {
     ctx.ev(K::EBeg, store, a, (ridx << 4) | e.kind as u32, 0, 0, e.panic as u8);
+    if ctx.count_progress {
+        ctx.c_eff.add(1);
+    }
     if e.gate != NOGATE {
         ctx.gate_wait(e.gate, store, a);
     }
@@ -285,6 +298,9 @@ pub fn make_effect(ctx: &Arc<Ctx>, store: u8, act: &Act, ridx: u32, e: EffSpec) 
         ),
         _ => Effect::Thunk(Box::new(move |d: Box<dyn Dispatcher<Act>>| {
             c.ev(K::EBeg, store, a, (ridx << 4) | e.kind as u32, 0, 0, e.panic as u8);
+            if c.count_progress {
+                c.c_eff.add(1);
+            }
             if e.gate != NOGATE {
                 c.gate_wait(e.gate, store, a);
             }
@@ -320,6 +336,9 @@ impl Reducer<St, Act> for ScriptedReducer {
         };
         let keep = self.idx < 8 && sc.keep & (1 << self.idx) != 0;
         c.ev(K::REnd, self.store, act.id, self.idx, ns.digest(), ns.steps, keep as u8);
+        if c.count_progress && self.idx == 0 {
+            c.c_red.add(1);
+        }
         if keep {
             DispatchOp::Keep(ns, eff)
         } else {
